@@ -32,6 +32,20 @@ def cases(tier, seed):
         path = rng.choice(["TTFs", "TTFsFromDS", "TTFsFromDS", "OTFsFromDS"])
         kinds = ["line", "cubic", "mixed"] if path == "OTFsFromDS" else ["line", "quad", "cubic", "mixed"]
         base = gen.glyphset(rng, nmin=3, nmax=6, max_depth=2, kinds=kinds, palette=c02.PALETTE_TT, unicodes=True)
+        directed = None
+        if path == "TTFsFromDS" and rng.random() < 0.35:
+            # a sparse master that holds a MIXED glyph and a composite of the same base but not the base itself: the base is
+            # interpolated on the fly when the mixed glyph is decomposed (before the curve conversion) and again when a
+            # post filter decomposes the composite (after it)
+            simple = [n_ for n_ in sorted(base) if base[n_]["cs"] and not base[n_]["comps"]]
+            if simple:
+                b_ = rng.choice(simple)
+                P = absfont.PS
+                base["mx"] = {"cs": [[[0, 0, "line"], [40 * P, 0, "line"], [40 * P, 30 * P, "line"]]],
+                              "comps": [{"b": b_, "m": [64, 0, 0, 64], "d": [rng.randint(-40, 40) * P, 0]}], "anchors": [], "w": 500 * P, "h": 0, "u": []}
+                base["cx"] = {"cs": [], "comps": [{"b": b_, "m": list(rng.choice([[64, 0, 0, 64], [-64, 0, 0, 64]])), "d": [0, rng.randint(-40, 40) * P]}],
+                              "anchors": [], "w": 500 * P, "h": 0, "u": []}
+                directed = b_
         nm = rng.choice([2, 3])
         masters = [base] + [gen.perturb_master(rng, base, palette=c02.PALETTE_TT, change_2x2=0.12 if path != "OTFsFromDS" else 0.0)
                             for _ in range(nm - 1)]
@@ -41,6 +55,11 @@ def cases(tier, seed):
             pick = [n_ for n_ in names if rng.random() < 0.4] or names[:1]
             sp = gen.perturb_master(rng, {n_: base[n_] for n_ in names}, change_2x2=0.0)
             sparse = {n_: sp[n_] for n_ in pick}
+        if directed:
+            names = sorted(base)
+            sp = gen.perturb_master(rng, {n_: base[n_] for n_ in names}, change_2x2=0.0)
+            pick = {"mx", "cx"} | {n_ for n_ in names if n_ != directed and rng.random() < 0.25}
+            sparse = {n_: sp[n_] for n_ in sorted(pick)}
         # a tie that exists in ONE master only: two consecutive on-curve points coincide (a collapsed notch), in the
         # other masters they are distinct -- any per-master decision to drop the zero-length segment breaks compatibility
         if rng.random() < TIE_PROB:
@@ -61,8 +80,20 @@ def cases(tier, seed):
             skip = gen.subset(rng, sorted(base), 0.25)
             if len(skip) == len(base):
                 skip = skip[:-1]
+        post = []
+        if directed:
+            post = [{"name": "decomposeComponents", "pre": False, "include": ["cx"]}]
+            if rng.random() < 0.5 and not skip:
+                skip = [n_ for n_ in sorted(base) if n_ not in ("mx", "cx", directed) and not base[n_]["comps"]
+                        and not any(c["b"] == n_ for g in base.values() for c in g["comps"])][:1]
+        elif path != "TTFs" and rng.random() < 0.35:
+            # a custom POST filter (lib key of every source) that decomposes some composites after the curve conversion:
+            # their bases are interpolated on the fly for sparse masters, from outlines that earlier stages have changed
+            comps_ = [n_ for n_ in sorted(base) if base[n_]["comps"] and n_ not in skip]
+            if comps_:
+                post = [{"name": "decomposeComponents", "pre": False, "include": gen.subset(rng, comps_, 0.6) or comps_[:1]}]
         out.append({"cid": f"c09-{seed}-{k}", "lib": rng.choice(["ufoLib2", "defcon"]), "path": path, "masters": masters,
-                    "sparse": sparse, "kwargs": kwargs, "skip": skip})
+                    "sparse": sparse, "kwargs": kwargs, "skip": skip, "post": post})
     return out
 
 
@@ -118,6 +149,8 @@ def execute(case):
                "info": {"unitsPerEm": 1000, "ascender": 800, "descender": -200, "familyName": "Compat", "styleName": f"M{k}"}}
         if k == 0 and case["sparse"]:
             ufo["layers"] = {"sparse": copy.deepcopy(case["sparse"])}
+        if case.get("post"):
+            ufo["lib"] = {"com.github.googlei18n.ufo2ft.filters": copy.deepcopy(case["post"])}
         fam_masters.append({"loc": {"Weight": locs[k]}, "ufo": ufo, "name": f"M{k}"})
     if case["sparse"]:
         fam_masters.append({"loc": {"Weight": 2}, "layer": "sparse", "of": 0, "name": "Sparse"})
